@@ -566,7 +566,7 @@ def reframe_nrows(integ, phys, prefixes=4):
                         "pyjelly/integrations/generic/parse.py:parse_quads_stream", "pyjelly/integrations/rdflib/parse.py:parse_jelly_flat", "pyjelly/integrations/rdflib/parse.py:parse_jelly_grouped",
                         "pyjelly/integrations/generic/serialize.py:grouped_stream_to_frames", "pyjelly/integrations/rdflib/serialize.py:grouped_stream_to_frames", "pyjelly/serialize/flows.py:GraphsFrameFlow.frame_from_graph",
                         "pyjelly/serialize/flows.py:DatasetsFrameFlow.frame_from_dataset"],
-      bounds={"quick": {"reframe": "3-statement valid streams (TRIPLES/QUADS/GRAPHS, 8-14 rows); one symbolic boolean per row gap: every cut vector for streams of <= 9 rows, every vector with at most 2-3 (thorough 4) cuts for longer ones; empty frame in front and/or in the middle, metadata maps on first/last frame; both integrations",
+      bounds={"quick": {"reframe": "3-statement valid streams (TRIPLES/QUADS/GRAPHS, 8-14 rows); one symbolic boolean per row gap: every cut vector for streams of <= 9 rows, every vector with at most 2-3 (thorough 3-4) cuts for longer ones; empty frame in front and/or in the middle, metadata maps on first/last frame; both integrations",
                         "grouped_ser": "3 input sinks with 0..2 statements each (symbolic), every grouped logical type of the physical type, one shared Stream, the library constant DEFAULT_FRAME_SIZE replaced by a symbolic integer >= 1; both integrations; rdflib also with Dataset inputs to a GRAPHS-typed TripleStream (one frame per graph)"}},
       outside="longer streams (per-row argument: one Decoder instance, iter_rows per frame); more than 3 input sinks",
       explanation="H-REFRAME")
@@ -578,7 +578,7 @@ def c07(tier):
             for a in (False, True):
                 for b in (False, True):
                     us.append(U(f"reframe:{integ}:p{phys}:c{int(a)}{int(b)}", "reframe", "reframe",
-                                dict(integ=integ, phys=phys, nrows=n, fixcuts=[a, b], maxcuts=None if n <= 9 else ((2 if n > 11 else 3) if tier == "quick" else 4), tie=(tier == "quick")), timeout=900))
+                                dict(integ=integ, phys=phys, nrows=n, fixcuts=[a, b], maxcuts=None if n <= 9 else ((2 if n > 11 else 3) if tier == "quick" else (3 if n > 11 else 4)), tie=(tier == "quick")), timeout=900))
             us.append(U(f"grouped_ser:{integ}:p{phys}", "reframe", "grouped_ser", dict(integ=integ, phys=phys), timeout=600))
             if integ == "rdflib" and phys == 1:
                 us.append(U(f"grouped_ser:{integ}:p{phys}:datasets", "reframe", "grouped_ser", dict(integ=integ, phys=phys, dataset_input=True), timeout=600))
